@@ -24,4 +24,11 @@ def check(ctx: Ctx) -> str:
     from . import c13
 
     ctx.run_imported("C13", {"R3", "R6"}, c13.check)
+    # the token stream equals the source minus control-removed whitespace only if the end rules
+    # keep their newline inside the captured group and the sign is read from the right group
+    from ..lexrules import end_rule_siblings
+    from ..lexrules import sign_group_rule
+
+    end_rule_siblings(ctx, "R6")
+    sign_group_rule(ctx, "R7")
     return __doc__ or ""
